@@ -1,7 +1,7 @@
 (* C05 — the token tree obeys the documented grammar.  PARTIAL: attribute bounds that follow from the
    regenerated patterns.  The inductive proof over the parser model is not claimed (DESIGN.md). *)
 From Coq Require Import ZArith List Bool Lia.
-From Verif Require Import PyStr Rx RxSpec RxAnalysis UnicodeGen RxGen.
+From Verif Require Import PyStr Rx RxSpec RxAnalysis UnicodeGen RxGen Inline Block BlockTyping BlockGen Entry.
 Import ListNotations.
 Local Open Scope nat_scope.
 
@@ -31,5 +31,21 @@ Proof. vm_compute. split; reflexivity. Qed.
 Theorem C05_all_patterns_wf : forallb (fun e : str * rx => wf (snd e)) rx_table = true.
 Proof. vm_compute. reflexivity. Qed.
 
+(* ---- structural grammar of the block tree, on the block parser model (Model/Block.v; tied by skeletons with
+   constants, BlockGen and the token-tree correspondence run of this check) ---- *)
+Theorem C05_tie_block_skeletons : block_skeletons_ok = true.
+Proof. reflexivity. Qed.
+
+(* for every text and every configuration of the model: the children of a list are list items, list items occur only
+   there, and the children of quotes and list items are again well-formed block tokens (at every depth) *)
+Theorem C05_block_tree_is_well_typed : forall C s toks rf, block_parse C s = Ok (toks, rf) -> toks_ok toks = true.
+Proof. exact block_parse_typed. Qed.
+
+Example C05_typing_is_not_vacuous :
+  tok_ok (BList [BListItem [BBlockText [97%Z]; BQuote [BParagraph [98%Z]]]] true 45%Z 0 false None) = true /\
+  tok_ok (BQuote [BListItem []]) = false /\ tok_ok (BList [BParagraph []] true 45%Z 0 false None) = false.
+Proof. repeat split. Qed.
+
 Print Assumptions C05_atx_level_in_1_6.
 Print Assumptions C05_list_marker_bounded.
+Print Assumptions C05_block_tree_is_well_typed.
